@@ -36,6 +36,7 @@ func envOr(k, d string) string {
 // instrumented packages (repo-relative); every non-test file in them is rewritten.
 var instrPkgs = []string{
 	"host", "proc", "proc/tcp", "proc/internal/net", "proc/internal/lb", "proc/internal/hc",
+	"proc/internal/hc/atcp", "proc/internal/hc/redis", "proc/internal/hc/mysql",
 	"proc/redis", "proc/redis/hotkey", "proc/redis/compressor", "proc/redis/compressor/snappy",
 	"config", "controller",
 }
